@@ -29,10 +29,10 @@
         'rewrites': [[r'eval_expr_impl\((\w+), shell, ([^)]+)\)', r'__o.ev(\1, \2)', 4],
                      [r'pin_subscript\(shell, &?(\w+), ([^)]+)\)', r'__o.pin(&\1, \2)', 0],
                      [r'deref_lvalue\(shell, &?(\w+), ([^)]+)\)', r'__o.deref(&\1, \2)', 1],
-                     [r'assign\(shell, &?(\w+), (\w+), ([^)]+)\)', r'__o.assign(&\1, \2, \3)', 2],
+                     [r'assign\(shell, &?(\w+), (\w+), ([^)]+)\)', r'__o.assign(&\1, \2, \3)', 1],
                      [r'apply_unary_op\(shell, \*op, (\w+), ([^)]+)\)', r'__o.unop(*op, \1, \2)', 1],
                      [r'apply_unary_assignment_op\(shell, &?(\w+), \*op, ([^)]+)\)', r'__o.incdec(&\1, *op, \2)', 1],
-                     [r'apply_binary_op\(\s*shell,\s*\*op,\s*([^,]+),\s*([^,]+),\s*([^,)]+),?\s*\)', r'__o.binop(*op, \1, \2, \3)', 2],
+                     [r'apply_binary_op\(\s*shell,\s*\*op,\s*([^,]+),\s*([^,]+),\s*([^,)]+),?\s*\)', r'__o.binop(*op, \1, \2, \3)', 1],
                      [r'(\w+)\.eval\(shell\)', r'__o.eval_restart()', 0]]},
  'pin_d': {'file': 'brush-core/src/arithmetic.rs', 'start': r'^fn pin_subscript\(', 'mode': 'fn_body', 'if_absent': 'Ok(lvalue.clone())',
         'rewrites': [[r'eval_expr_impl\(index_expr, shell, ([^)]+)\)', r'__o.eval_index_value(\1)', 1],
